@@ -240,6 +240,12 @@ def run(ctx):
     c11.check_rows(ctx, "C16.9")
     c01.check_der(ctx, "C16.9")
     c05.check_writer(ctx, "C16.9")
+    from . import c14
+    c14.check_pubkey_encoder(ctx, "C16.9")  # the sender's public key in scriptSigs / witnesses / redeem scripts: fixed-width SEC1
+    hs = rules.hidden_state(ctx.prog, [fi])
+    R.check("C16.8", "OWN", fi, "send_tx keeps no state between calls (no memoised node queries, no module-level caches)", not hs,
+            "%s %s" % ((hs[0][0].qualname, hs[0][2]) if hs else ("", "")), line=hs[0][1].lineno if hs else None,
+            example="a second payment from the same sender in one process after the node's UTXO answer has changed")
 
 
 def is_unspents(it):
